@@ -1172,9 +1172,17 @@ def explore(ctx, tpl, stats):
     st["templates"] += 1
     exhaustive = True
     sample = None
+    t_start = time.time()
+    t_cap = float(os.environ.get("VERIF_TEMPLATE_CAP_S", "240"))
     while work:
         if len(seen) >= tpl.cap:
             exhaustive = False
+            break
+        if seen and time.time() - t_start > t_cap:
+            # wall-clock cap per template: what was not explored is reported, never silently passed
+            exhaustive = False
+            st["undecided"] = st.get("undecided", 0) + 1
+            findings.append(dict(kind="undecided", tpl=tpl.name, role=tpl.role, vals=None, obl="exploration", detail=f"template time cap ({t_cap:.0f} s) reached after {len(seen)} path(s)"))
             break
         vals = work.pop()
         r = run_template(ctx, tpl, vals)
